@@ -26,6 +26,156 @@ TRUSTED = ["report statements are identified by the literals 'not converged' / '
 CLS = "Geometry_Optimization_SD"
 
 
+# ---------------------------------------------------------------------------------------------------------------------------------
+# residual recognisers (by structure, not by spelling): "largest absolute force component" is any chain of max-reductions over
+# |force|; a chain that ends in a reduction without `dim` is the whole-batch maximum ('global'), a chain with dims over the atom /
+# component axes only is a per-molecule maximum ('rows').
+def _absmax_kind(e, force, defs, depth=0):
+    """'global' | 'rows' | 'abs' | None for an expression over the force tensor `force`."""
+    if depth > 6:
+        return None
+    if isinstance(e, ast.Name) and e.id != force and e.id in defs and len(defs[e.id]) == 1:
+        return _absmax_kind(defs[e.id][0], force, defs, depth + 1)
+    if isinstance(e, ast.Subscript) and isinstance(e.slice, ast.Constant) and e.slice.value == 0:
+        # torch.max(x, dim=d)[0]
+        k = _absmax_kind(e.value, force, defs, depth + 1)
+        return k
+    if isinstance(e, ast.Attribute) and e.attr == "values":
+        return _absmax_kind(e.value, force, defs, depth + 1)
+    if not isinstance(e, ast.Call):
+        return None
+    fn = call_name(e) or ""
+    meth = callee_attr(e)
+    # abs
+    if (fn in ("torch.abs", "abs") and len(e.args) == 1) or (meth == "abs" and isinstance(e.func, ast.Attribute) and not e.args and not fn.startswith("torch.")):
+        base = e.args[0] if e.args else e.func.value
+        if isinstance(base, ast.Name) and base.id != force and base.id in defs and len(defs[base.id]) == 1:
+            base = defs[base.id][0]
+        return "abs" if norm(base) in (force, f"{force}.detach()") else None
+    if meth in ("max", "amax"):
+        if fn in ("torch.max", "torch.amax"):
+            if not e.args:
+                return None
+            inner, rest = e.args[0], list(e.args[1:])
+        else:
+            inner, rest = e.func.value, list(e.args)
+        has_dim = bool(rest) or any(k.arg in ("dim", "axis") for k in e.keywords)
+        k = _absmax_kind(inner, force, defs, depth + 1)
+        if k is None:
+            return None
+        if not has_dim:
+            return "global"
+        # a reduction over named axes of |force| or of a per-molecule maximum stays per molecule unless axis 0 is reduced
+        dims = rest[0] if rest else next((kw.value for kw in e.keywords if kw.arg in ("dim", "axis")), None)
+        try:
+            dv = ast.literal_eval(dims)
+        except Exception:
+            return None
+        dv = (dv,) if isinstance(dv, int) else tuple(dv)
+        if k == "global":
+            return "global"
+        if 0 in dv:
+            return "global" if (k == "rows" or set(dv) >= {0, 1, 2} or set(dv) >= {0, -1, -2}) else None
+        return "rows"
+    return None
+
+
+def _is_mean_change(e, new, old, defs):
+    """e == mean over molecules of (new - old): (new-old).sum()/nmol, torch.mean(new-old), (new-old).mean(), (new.sum()-old.sum())/nmol, ...
+    decided by interpreting the expression as a linear form over {new, old} with 'sum' / 'mean' reductions over the molecule axis."""
+    nmol_names = {"nmol"} | {k for k, v in defs.items() if len(v) == 1 and norm(v[0]).replace(" ", "") in (f"{new}.shape[0]", f"{new}.numel()", f"len({new})", "molecule.nmol", "molecule.species.shape[0]", "molecule.coordinates.shape[0]")}
+
+    def lin(x):
+        # returns {name: (coef_per_element, reduced?)} with coefficient as a Fraction-like pair (num, uses_nmol_division)
+        import fractions
+        if isinstance(x, ast.Name):
+            if x.id in (new, old):
+                return {x.id: (fractions.Fraction(1), 0, False)}   # (coef, power of 1/nmol, reduced)
+            if x.id in defs and len(defs[x.id]) == 1:
+                return lin(defs[x.id][0])
+            return None
+        if isinstance(x, ast.BinOp) and isinstance(x.op, (ast.Add, ast.Sub)):
+            a, b = lin(x.left), lin(x.right)
+            if a is None or b is None:
+                return None
+            out = dict(a)
+            for k, (c, pw, red) in b.items():
+                c = c if isinstance(x.op, ast.Add) else -c
+                if k in out:
+                    c0, pw0, red0 = out[k]
+                    if pw0 != pw or red0 != red:
+                        return None
+                    out[k] = (c0 + c, pw, red)
+                else:
+                    out[k] = (c, pw, red)
+            reds = {v[2] for v in out.values()}
+            return out if len(reds) == 1 else None
+        if isinstance(x, ast.UnaryOp) and isinstance(x.op, ast.USub):
+            a = lin(x.operand)
+            return None if a is None else {k: (-c, pw, red) for k, (c, pw, red) in a.items()}
+        if isinstance(x, ast.BinOp) and isinstance(x.op, ast.Div) and (norm(x.right) in nmol_names or norm(x.right).replace(" ", "") in (f"float({n})" for n in nmol_names)):
+            a = lin(x.left)
+            return None if a is None else {k: (c, pw + 1, red) for k, (c, pw, red) in a.items()}
+        if isinstance(x, ast.Call):
+            fn, meth = call_name(x) or "", callee_attr(x)
+            inner = None
+            if fn in ("torch.sum", "torch.mean") and x.args:
+                inner = x.args[0]
+            elif meth in ("sum", "mean") and isinstance(x.func, ast.Attribute) and not fn.startswith("torch."):
+                inner = x.func.value
+            if inner is not None:
+                a = lin(inner)
+                if a is None or any(red for _, _, red in a.values()):
+                    return None
+                return {k: (c, pw + (1 if meth == "mean" else 0), True) for k, (c, pw, _) in a.items()}
+            if meth in ("detach", "item") and isinstance(x.func, ast.Attribute):
+                return lin(x.func.value)
+        return None
+    r = lin(e)
+    return r is not None and set(r) == {new, old} and r[new] == (1, 1, True) and r[old] == (-1, 1, True)
+
+
+def _stop_atom(a, FE_kind, tol="self.force_tol"):
+    """Classify a controlling atom of the stop decision: returns 'met' if the atom is true exactly when every molecule's largest
+    absolute force component is <= tol, 'unmet' if it is true exactly when some component exceeds tol, None otherwise.
+    FE_kind maps an expression to 'global' / 'rows' / None."""
+    def side(x):
+        return "tol" if norm(x) == tol else FE_kind(x)
+    if isinstance(a, ast.Compare) and len(a.ops) == 1:
+        l, r, op = side(a.left), side(a.comparators[0]), a.ops[0]
+        if l == "global" and r == "tol":
+            return {ast.Gt: "unmet", ast.LtE: "met"}.get(type(op))
+        if l == "tol" and r == "global":
+            return {ast.Lt: "unmet", ast.GtE: "met"}.get(type(op))
+        return None
+    if isinstance(a, ast.Call):
+        fn, meth = call_name(a) or "", callee_attr(a)
+        inner = None
+        if fn in ("torch.all", "torch.any", "all", "any") and len(a.args) == 1:
+            inner, q = a.args[0], meth
+        elif meth in ("all", "any") and isinstance(a.func, ast.Attribute) and not a.args:
+            inner, q = a.func.value, meth
+        elif fn == "bool" and len(a.args) == 1:
+            return _stop_atom(a.args[0], FE_kind, tol)
+        if isinstance(inner, ast.Compare) and len(inner.ops) == 1:
+            l, r, op = side(inner.left), side(inner.comparators[0]), inner.ops[0]
+            if l == "tol" and r in ("rows", "global", "abs"):
+                flip = {ast.Lt: ast.Gt, ast.GtE: ast.LtE, ast.Gt: ast.Lt, ast.LtE: ast.GtE}
+                l, r, op = r, l, flip.get(type(op), type(op))()
+            if l in ("rows", "global", "abs") and r == "tol":
+                if isinstance(op, ast.LtE) and q == "all":
+                    return "met"
+                if isinstance(op, ast.Gt) and q == "any":
+                    return "unmet"
+                if l == "global":   # a scalar under all()/any() is itself
+                    return {ast.Gt: "unmet", ast.LtE: "met"}.get(type(op))
+        return None
+    if isinstance(a, ast.UnaryOp) and isinstance(a.op, ast.Not):
+        k = _stop_atom(a.operand, FE_kind, tol)
+        return {"met": "unmet", "unmet": "met"}.get(k)
+    return None
+
+
 def run(ctx):
     import sympy as sp
     md = ctx.repo.mod(MD)
@@ -121,18 +271,32 @@ def run(ctx):
     FORCE, LNEW = (e.id for e in _steps[0].stmt.targets[0].elts)
     defs = local_defs(rn)
     fe = defs.get(FE, [])
-    ok_fe = len(fe) == 1 and norm(fe[0]).replace(" ", "") in (f"torch.max(torch.abs({FORCE}))", f"{FORCE}.abs().max()", f"torch.abs({FORCE}).max()")
-    ctx.check(ok_fe, "R2", md, rn, f"{CLS}.run", FE, "residual = largest absolute force component", f"{FE} defined as {[norm(x) for x in fe]}")
+    _loop_defs = {k: v for k, v in defs.items() if k != FORCE}
+    ok_fe = len(fe) == 1 and _absmax_kind(fe[0], FORCE, _loop_defs) == "global"
+    ctx.check(ok_fe, "R2", md, rn, f"{CLS}.run", FE, "residual = largest absolute force component (a chain of max-reductions over |force| ending in the whole-batch maximum)",
+              f"{FE} defined as {[norm(x) for x in fe]}, which is not the largest absolute force component of the batch")
+
+    def FE_kind(x):
+        return _absmax_kind(x, FORCE, _loop_defs)
+
+    def stop_verdict(ctrl):
+        """ctrl: [(atom, polarity, if-node)] -> 'met' / 'unmet' / None (not exactly the stop criterion)"""
+        if len(ctrl) != 1:
+            return None
+        a, pol, _ = ctrl[0]
+        k = _stop_atom(a, FE_kind)
+        if k is None:
+            return None
+        return k if pol else {"met": "unmet", "unmet": "met"}[k]
     for b in breaks:
         ctrl = controlling(md, b.stmt, stop=L.stmt)
         txt = [(norm(a).replace(" ", ""), p) for a, p, _ in ctrl]
-        ok = (f"{FE}>self.force_tol", False) in txt or (f"{FE}<=self.force_tol", True) in txt or (f"self.force_tol>={FE}", True) in txt
-        ctx.check(ok and len(txt) == 1, "R2", md, b.stmt, f"{CLS}.run", b.stmt, "break exactly when max|force| <= force_tol",
-                  f"loop breaks under {txt} instead of `{FE} <= self.force_tol`")
+        ctx.check(stop_verdict(ctrl) == "met", "R2", md, b.stmt, f"{CLS}.run", b.stmt, "break exactly when max|force| <= force_tol (every molecule)",
+                  f"loop breaks under {txt} instead of `max|force| <= self.force_tol` for every molecule")
     for c in conts:
         ctrl = controlling(md, c.stmt, stop=L.stmt)
         txt = [(norm(a).replace(" ", ""), p) for a, p, _ in ctrl]
-        ctx.check((f"{FE}>self.force_tol", True) in txt, "R2", md, c.stmt, f"{CLS}.run", c.stmt, "continue exactly when max|force| > force_tol",
+        ctx.check(stop_verdict(ctrl) == "unmet", "R2", md, c.stmt, f"{CLS}.run", c.stmt, "continue exactly when max|force| > force_tol (some molecule)",
                   f"loop continues under {txt}")
     # force_err computed from this iteration's force, before the test
     step_nodes = [n for n in g.nodes if n.kind == "stmt" and any(callee_attr(c) == "onestep" for c in calls_in(n.stmt))]
@@ -151,7 +315,7 @@ def run(ctx):
     _ev = ee_nodes[0].stmt.value
     _others = sorted({x.id for x in ast.walk(_ev) if isinstance(x, ast.Name)} - {LNEW, "nmol", "torch"})
     LOLD = _others[0] if len(_others) == 1 else "Lold"
-    ctx.check(norm(_ev).replace(" ", "") == f"({LNEW}-{LOLD}).sum()/nmol", "R2", md, ee_nodes[0].stmt, f"{CLS}.run", ee_nodes[0].stmt,
+    ctx.check(_is_mean_change(_ev, LNEW, LOLD, defs), "R2", md, ee_nodes[0].stmt, f"{CLS}.run", ee_nodes[0].stmt,
               "energy change = mean over molecules of Lnew - Lold", f"energy_err = `{norm(ee_nodes[0].stmt.value)}`")
     lold = [n for n in g.nodes if n.kind == "stmt" and isinstance(n.stmt, ast.Assign) and norm(n.stmt.targets[0]) == LOLD and n.id in body_nodes]
     ctx.check(bool(lold) and all(norm(n.stmt.value) == LNEW for n in lold) and all(g.must_pass(st.id, c.id, {n.id for n in lold}) for c in conts), "R2", md,
